@@ -356,6 +356,11 @@ class Natives(object):
         return None
 
     def call_method(self, ex, st, recv, meth, e):
+        for iq in getattr(ex.case, 'inline', ()):
+            if iq.endswith('.%s.%s' % (recv.ty.cls, meth)):
+                args = [recv] + [ex.eval(st, a) for a in e.args]
+                kwargs = dict((k.arg, ex.eval(st, k.value)) for k in e.keywords)
+                return self.inline_call(ex, st, iq, args, kwargs, e)
         q = self.method_qual(ex, recv.ty.cls, meth)
         if q is None:
             raise Undecided('no contract for method %s.%s (line %d)' % (recv.ty.cls, meth, e.lineno))
